@@ -118,6 +118,8 @@ type Machine struct {
 	MaxSteps  int
 	MaxDepth  int
 	MaxPaths  int
+	// Bind supplies the free variables when the explored function is a closure.
+	Bind func(m *Machine) []Val
 	// OpaqueOK lets calls without model or body become opaque effects; when
 	// false such a call aborts the path.
 	OpaqueOK bool
@@ -259,7 +261,11 @@ func (m *Machine) runOnce(fn *ssa.Function, setup func(m *Machine) []Val) (p *Pa
 		}
 	}()
 	args := setup(m)
-	p.Ret = m.callFunc(fn, args, nil, 0)
+	var bind []Val
+	if m.Bind != nil {
+		bind = m.Bind(m)
+	}
+	p.Ret = m.callFunc(fn, args, bind, 0)
 	return p
 }
 
